@@ -20,6 +20,10 @@
        [C09_inline_transparent_script] adds interrupts of the devices outside the system between
        ticks; [C09_nested_is_every_flat_schedule] composes it with C08: the nested model computes
        what every schedule (answer order) of the flat simulation gives every device.
+   (4) [C09_inline_transparent_siblings]: the same with SIBLING system simulations at the top level,
+       themselves nested to any depth (their ticks are related through the dictionary-adequacy
+       theorem of C03 and the footprint theorems of C10); systems of devices can so be inlined one
+       after the other ([C09_inline_two_siblings]).
    PARTIAL: (3) is about runs without interrupts, at speed 1 where real time is involved; nestings
    deeper than one level, several system simulations, wires straight from an external to an exposed
    port and interrupts are decided per pair of runs of the real schedulers (codes 71/72) and per run
@@ -28,7 +32,7 @@
    that flattening (code 74).  Property theorems only. *)
 From TV Require Import Base Model.Wiring Model.Ticker Model.Component Model.Sim Model.SimTime Model.Inline Model.NSim
   Oracle.SimCheck Oracle.SimOracle
-  Proofs.SimP Proofs.FlattenP Proofs.EqvP Proofs.InlineP Proofs.InlineLoopP Proofs.InlineScopeP Proofs.SimTimeP Proofs.InlineLatestP Proofs.ScheduleP Proofs.SimTraceP.
+  Proofs.SimP Proofs.FlattenP Proofs.EqvP Proofs.ParDevP Proofs.InlineP Proofs.InlineLoopP Proofs.InlineScopeP Proofs.SimTimeP Proofs.InlineLatestP Proofs.ScheduleP Proofs.SimTraceP.
 Open Scope Z_scope.
 
 Theorem C09_flat_devices : forall cfg fuel lv, flat_order fuel cfg lv = devices_below cfg fuel lv.
@@ -77,7 +81,7 @@ Theorem C09_inline_transparent : forall cfg c lvc pre inn post (devf : devfun) f
   obs_rel obN obF /\ doneN = doneF.
 Proof.
   intros cfg c lvc pre inn post devf f n initial horizon Hs Hnd Hext.
-  pose proof (run_inline cfg c lvc pre inn post (shape_of_sound _ _ _ _ _ _ Hs) devf Hnd Hext f n initial horizon) as H.
+  pose proof (run_inline cfg c lvc pre inn post (shape_of_sound _ _ _ _ _ _ Hs) devf Hnd Hext f (shape_of_devices _ _ _ _ _ _ Hs (S f)) n initial horizon) as H.
   destruct (sim_run cfg devf n (S f) initial horizon) as [[sN obN] dN].
   destruct (sim_run (inline cfg c lvc) devf n (S f) initial horizon) as [[sF obF] dF].
   split; apply H.
@@ -137,7 +141,7 @@ Theorem C09_inline_transparent_script : forall cfg c lvc pre inn post (devf : de
           (snd (sim_script_from_start (inline cfg c lvc) devf (S f) initial script)).
 Proof.
   intros cfg c lvc pre inn post devf f initial script Hs Hnd Hext Hok.
-  pose proof (script_run_inline cfg c lvc pre inn post (shape_of_sound _ _ _ _ _ _ Hs) devf Hnd Hext f initial script Hok) as H.
+  pose proof (script_run_inline cfg c lvc pre inn post (shape_of_sound _ _ _ _ _ _ Hs) devf Hnd Hext f (shape_of_devices _ _ _ _ _ _ Hs (S f)) initial script Hok) as H.
   destruct (sim_script_from_start cfg devf (S f) initial script) as [sN obN].
   destruct (sim_script_from_start (inline cfg c lvc) devf (S f) initial script) as [sF obF]. apply H.
 Qed.
@@ -164,6 +168,73 @@ Proof.
   destruct (sim_script_from_start (inline cfg c lvc) devf (S f) initial script) as [sF obF]. destruct H2 as [_ H2]. cbn [snd] in H1.
   eapply obs_rel_trans; [apply obs_rel_dev_obs; exact H1 | apply obs_rel_sym; apply H2].
 Qed.
+
+(* (4) the same when the system sits among top-level devices AND sibling system simulations, which may
+   themselves be nested to any depth ([shape_at] decides the scope for the fuel of the run): replacing
+   ONE system simulation of devices by its contents changes no observation -- of the top-level
+   devices, of the inlined devices, or of any device inside a sibling system *)
+Theorem C09_inline_transparent_siblings : forall cfg c lvc pre inn post (devf : devfun) f n initial horizon,
+  shape_at cfg (S f) c = Some (lvc, pre, inn, post) ->
+  (forall d k t i, NoDup (keys (fst (devf d k t i)))) ->
+  (forall d k t i i', NoDup (keys i) -> NoDup (keys i') -> eqv i i' -> devf d k t i = devf d k t i') ->
+  let '(_, obN, doneN) := sim_run cfg devf n (S f) initial horizon in
+  let '(_, obF, doneF) := sim_run (inline cfg c lvc) devf n (S f) initial horizon in
+  obs_rel obN obF /\ doneN = doneF.
+Proof.
+  intros cfg c lvc pre inn post devf f n initial horizon Hs Hnd Hext.
+  destruct (shape_at_sound cfg (S f) c lvc pre inn post Hs) as [Hsh Hsib].
+  pose proof (run_inline cfg c lvc pre inn post Hsh devf Hnd Hext f Hsib n initial horizon) as H.
+  destruct (sim_run cfg devf n (S f) initial horizon) as [[sN obN] dN].
+  destruct (sim_run (inline cfg c lvc) devf n (S f) initial horizon) as [[sF obF] dF].
+  split; apply H.
+Qed.
+
+(* inlining one system after the other: two sibling systems of devices flattened in two steps *)
+Theorem C09_inline_two_siblings : forall cfg c1 lv1 pre1 inn1 post1 c2 lv2 pre2 inn2 post2 (devf : devfun) f n initial horizon,
+  shape_at cfg (S f) c1 = Some (lv1, pre1, inn1, post1) ->
+  shape_at (inline cfg c1 lv1) (S f) c2 = Some (lv2, pre2, inn2, post2) ->
+  (forall d k t i, NoDup (keys (fst (devf d k t i)))) ->
+  (forall d k t i i', NoDup (keys i) -> NoDup (keys i') -> eqv i i' -> devf d k t i = devf d k t i') ->
+  obs_rel (snd (fst (sim_run cfg devf n (S f) initial horizon)))
+          (snd (fst (sim_run (inline (inline cfg c1 lv1) c2 lv2) devf n (S f) initial horizon))).
+Proof.
+  intros cfg c1 lv1 pre1 inn1 post1 c2 lv2 pre2 inn2 post2 devf f n initial horizon H1 H2 Hnd Hext.
+  pose proof (C09_inline_transparent_siblings cfg c1 lv1 pre1 inn1 post1 devf f n initial horizon H1 Hnd Hext) as A.
+  pose proof (C09_inline_transparent_siblings (inline cfg c1 lv1) c2 lv2 pre2 inn2 post2 devf f n initial horizon H2 Hnd Hext) as B.
+  destruct (sim_run cfg devf n (S f) initial horizon) as [[s0 o0] d0].
+  destruct (sim_run (inline cfg c1 lv1) devf n (S f) initial horizon) as [[s1 o1] d1].
+  destruct (sim_run (inline (inline cfg c1 lv1) c2 lv2) devf n (S f) initial horizon) as [[s2 o2] d2].
+  cbn [fst snd]. eapply obs_rel_trans; [apply A | apply B].
+Qed.
+
+(* non-vacuity: source 3 -> system 4 (devices 5 -> 6) -> sibling system 7 (device 9 and a system 10 holding
+   device 11, i.e. depth 2) -> sink 8; the system 4 is inlined; and two sibling systems of devices inlined one
+   after the other *)
+Definition sib_cfg : config :=
+  [(1%positive, {| l_order := [(3%positive, KDev); (4%positive, KSys 2%positive); (7%positive, KSys 3%positive); (8%positive, KDev)];
+                   l_conns := [(3, 1, 4, 1); (4, 1, 7, 1); (7, 1, 8, 1); (3, 2, 8, 2)]%positive |});
+   (2%positive, {| l_order := [(5%positive, KDev); (6%positive, KDev)];
+                   l_conns := [(1, 1, 5, 1); (5, 1, 6, 1); (6, 1, 2, 1)]%positive |});
+   (3%positive, {| l_order := [(9%positive, KDev); (10%positive, KSys 4%positive)];
+                   l_conns := [(1, 1, 9, 1); (9, 1, 10, 1); (10, 1, 2, 1)]%positive |});
+   (4%positive, {| l_order := [(11%positive, KDev)]; l_conns := [(1, 1, 11, 1); (11, 1, 2, 1)]%positive |})].
+Definition sib_tab : dev_table :=
+  [(3%positive, (11, 300, 1)); (5%positive, (12, 700, 1)); (6%positive, (13, 500, 4)); (8%positive, (14, 400, 0));
+   (9%positive, (15, 600, 1)); (11%positive, (16, 900, 4))].
+Definition two_cfg : config :=
+  [(1%positive, {| l_order := [(3%positive, KDev); (4%positive, KSys 2%positive); (7%positive, KSys 3%positive); (8%positive, KDev)];
+                   l_conns := [(3, 1, 4, 1); (4, 1, 7, 1); (7, 1, 8, 1)]%positive |});
+   (2%positive, {| l_order := [(5%positive, KDev)]; l_conns := [(1, 1, 5, 1); (5, 1, 2, 1)]%positive |});
+   (3%positive, {| l_order := [(9%positive, KDev)]; l_conns := [(1, 1, 9, 1); (9, 1, 2, 1)]%positive |})].
+
+Example C09_siblings_example :
+  shape_at sib_cfg 8 4%positive = Some (2%positive, [3%positive], [5%positive; 6%positive], [7%positive; 8%positive]) /\
+  (let '(_, obN, _) := sim_run sib_cfg (table_dev sib_tab) 20 8 0 100000 in
+   (40 <? Z.of_nat (length obN)) = true /\ existsb (fun o : obs => Pos.eqb (fst (fst o)) 11) obN = true) /\
+  shape_at two_cfg 8 4%positive = Some (2%positive, [3%positive], [5%positive], [7%positive; 8%positive]) /\
+  shape_at (inline two_cfg 4%positive 2%positive) 8 7%positive = Some (3%positive, [3%positive; 5%positive], [9%positive], [8%positive]) /\
+  map fst (l_order (level_of (inline (inline two_cfg 4%positive 2%positive) 7%positive 3%positive) 1%positive)) = [3; 5; 9; 8]%positive.
+Proof. vm_compute. repeat split; reflexivity. Qed.
 
 (* the premises hold somewhere and the conclusion is not empty: two devices around a system of two
    devices, callbacks on three of them; 20 master ticks produce more than 30 device updates, and the
